@@ -197,6 +197,31 @@ Theorem C07_zero_params_give_reference :
 Proof. exact zero_params_empty. Qed.
 Print Assumptions C07_zero_params_give_reference.
 
+(* 11. circuit = <user / mean-field sub-circuit> + <ansatz part>: a table whose indices are shifted by the
+       number of variational gates of the prefix writes exactly the ansatz segment — for ANY prefix
+       (QCC / ILC with any qmf_circuit, VSQS with any reference circuit), and only for that offset *)
+Theorem C07_concat_offset :
+  forall (W C V : Type) (weqb : W -> W -> bool) (ang : C -> V) (ws : list W) (o : op W C)
+         (pre seg post seg' : list V),
+    twrite W C V weqb ang (number 0 ws) o seg = Ok seg' ->
+    twrite W C V weqb ang (number (length pre) ws) o (pre ++ seg ++ post)%list = Ok (pre ++ seg' ++ post)%list.
+Proof. exact twrite_seg. Qed.
+Print Assumptions C07_concat_offset.
+(* a fixed offset (here 2, "the mean-field circuit has 2 variational gates") on a prefix of 3 gates writes
+   into the prefix; on a prefix of 0 gates it runs past the end *)
+Example C07_fixed_offset_refuted :
+  twrite exc nat nat exc_eqb (fun c => c) (number 2 [(0, 4); (1, 4)]) [((0, 4), 7); ((1, 4), 8)] ([91; 92; 93] ++ [1; 2])%list
+    = Ok [91; 92; 7; 8; 2]
+  /\ twrite exc nat nat exc_eqb (fun c => c) (number 2 [(0, 4); (1, 4)]) [((0, 4), 7); ((1, 4), 8)] ([] ++ [1; 2])%list
+    = Err IndexError.
+Proof. vm_compute. split; reflexivity. Qed.
+(* VSQS as written indexes circuit._variational_gates from 0: with a reference circuit that has a
+   variational gate (99) the schedule is written over it and the last ansatz gate keeps its old value *)
+Example C07_vsqs_variational_reference_refuted :
+  vsqs_update nat nat nat Nat.mul (VCfg nat [1] [2] None false 1) ([99] ++ [7; 7])%list [3; 4] = Ok [3; 8; 7]
+  /\ [3; 8; 7] <> ([99] ++ vsqs_layout nat nat (VCfg nat [1] [2] None false 1) Nat.mul [3; 4] 0)%list.
+Proof. vm_compute. split. reflexivity. intros H; discriminate H. Qed.
+
 (* ---- the size test is missing in VSQS.update_var_params: a longer vector is accepted (model) ---- *)
 Example C07_vsqs_longer_vector_accepted :
   vsqs_update nat nat nat Nat.mul (VCfg nat [1] [2] None false 1) [7; 7] [3; 4; 99] = Ok [3; 8].
